@@ -294,6 +294,19 @@ impl ExplorationContext {
         self.focus_frame
     }
 
+    /// Address to look up scopes, location lists and the enclosing function with.
+    /// The program counter of a caller frame is a return address: it points behind the call
+    /// instruction the frame is executing, possibly into the next lexical block, the next
+    /// location list entry or the next function. Any address inside the call instruction
+    /// identifies the right position, so one byte back is used.
+    pub fn lookup_pc(&self) -> GlobalAddress {
+        let pc = self.focus_location.global_pc;
+        if self.focus_frame == 0 {
+            return pc;
+        }
+        GlobalAddress::from(u64::from(pc).saturating_sub(1))
+    }
+
     #[inline(always)]
     pub fn pid_on_focus(&self) -> Pid {
         self.location().pid
